@@ -841,6 +841,12 @@ class M2Executor(Executor):
         an arbitrary exit state."""
         res = []
         mod = _assigned_names(node.body) | (set(_target_names(node.target)) if is_for else set())
+        if self.opts.get('loop_preserved_names') and not getattr(self, '_probing_loop', False):
+            # opt-in refinement of the trivial invariant: a local that every path from the loop head back to the loop
+            # head leaves untouched (it is only assigned on paths that leave the loop) keeps its pre-loop value at
+            # the head of every iteration and when the loop is exhausted.  Decided by a probe run of the body with
+            # every candidate bound to a fresh marker: preservation for an arbitrary value is the inductive step.
+            mod = mod - self._probe_preserved(node, st, fr, is_for, mod)
 
         def havoc(s):
             for n in mod:
@@ -905,6 +911,47 @@ class M2Executor(Executor):
         for a in broken:                        # `break` skips the loop's else clause
             outs.append(Outcome('normal', a))
         return res + self.merge(outs)
+
+    def _probe_preserved(self, node, st, fr, is_for, mod):
+        self._probing_loop = True
+        n_ob = len(self.obligations)
+        n_len = len(self.lenient)
+        try:
+            ps = st.fork()
+            marks = {}
+            for n in mod:
+                marks[n] = fresh_opaque('probe_' + n)
+                ps.env[n] = marks[n]
+            for n in ast.walk(ast.Module(body=node.body, type_ignores=[])):
+                if isinstance(n, ast.Call):
+                    nm = self._callee_name(n)
+                    if nm and nm not in self.spec.pure:
+                        self.havoc_call(nm, ps)
+            if is_for:
+                for n in _target_names(node.target):
+                    ps.env[n] = fresh_opaque(n)
+            starts = [ps]
+            if not is_for:
+                starts = []
+                for o in self.eval(node.test, ps, fr):
+                    if o.kind == 'normal':
+                        t, f = self.split(o.st, truthy(o.val))
+                        if t is not None:
+                            starts.append(t)
+            keep = set(n for n in mod if not (is_for and n in _target_names(node.target)))
+            for bs in starts:
+                for ob in self.exec_block(node.body, bs, fr):
+                    if ob.kind in ('normal', 'continue'):
+                        for n in list(keep):
+                            if ob.st.env.get(n) is not marks[n]:
+                                keep.discard(n)
+            return keep
+        except Unsupported:
+            return set()
+        finally:
+            self._probing_loop = False
+            del self.obligations[n_ob:]
+            del self.lenient[n_len:]
 
     def _generator_idiom(self, node, st, fr):
         """`for r in G(...)` over a generator call in one of the known shapes -> r = await G(...)"""
